@@ -241,6 +241,20 @@ def gen_races(rng, n):
     return out
 
 
+def gen_attach_races(rng, n):
+    """attach racing attach: two (three) controllers released together each attach their own queue to a detached
+    global, passing a 256 KiB handle value (boxing it inside attach takes a while). GlobalDetach allows at most one of
+    the overlapping attaches to take effect (the others panic), and a held handle's sink stays attached until that
+    handle is dropped."""
+    out = []
+    for i in range(n):
+        k = rng.choice([2, 2, 2, 3])
+        out.append({"id": i + 1, "kind": "attachrace", "appenders": 1, "n": rng.randint(3, 8), "pace_us": rng.choice([20, 100]),
+                    "ctls": [{"sink": j + 1, "delay_us": 0, "hold_us": rng.choice([100, 300, 600]), "big": True} for j in range(k)],
+                    "permille": 0, "max_us": 0, "flush_us": 1000, "slow_us": 0, "seed": rng.randrange(1 << 30)})
+    return out
+
+
 def run_T(chk, prop, scen, tag="race"):
     sp = os.path.join(chk.dir, f"{tag}-scen.ndjson")
     tp = os.path.join(chk.dir, f"{tag}-trace.ndjson")
@@ -310,6 +324,7 @@ def run(prop, tier):
     # 3. T
     rng = random.Random(chk.seed * 7919 + 17)
     run_T(chk, prop, gen_races(rng, 30 if tier == "quick" else 600))
+    run_T(chk, prop, gen_attach_races(rng, 100 if tier == "quick" else 1500), tag="attachrace")
     return chk.finish()
 
 
